@@ -10,21 +10,29 @@ notes = {
  'r-F7': 'equivalent since the F8 repair: last_picture now names the last NON-disposable picture, i.e. the reference; before that repair the C04 check found it (findings/F7-...)',
  'm42-state-before-gather': 'rejected by the borrow checker (the reference is borrowed across gather); the same idea is covered by seeded changes C04-1 and C05-1',
 }
+metas = [json.load(open(f)) for f in sorted(glob.glob(V + '/seeded/*/meta.json'), key=lambda f: (os.path.basename(os.path.dirname(f)).split('-')[0], int(os.path.basename(os.path.dirname(f)).split('-')[1])))]
+n_first_missed = sum(1 for m in metas if 'MISSED' in m.get('history', ''))
 out = ["# SENSITIVITY — do the checks notice when a property is broken?\n",
-"Both directions are recorded here: the pristine tree stays silent (see the last section), and deliberate",
-"property-breaking changes are reported within the *quick* budget.\n",
+"Both directions are recorded here: the pristine tree stays silent (section 3), and deliberate",
+"property-breaking changes are reported within the *quick* budget (sections 1 and 2).\n",
 "## 1. Seeded changes written by independent sub-agents\n",
-"Each sub-agent got only the text of one property and its own scratch worktree of `/repo` (nothing from `/verif`).",
-"Every change below was confirmed independently (`tools/verify_seed.sh`: compiles, the 34 existing tests pass,",
+f"{len(metas)} changes, written in five rounds by sub-agents that never saw `/verif`: rounds 1, 2 and 5 were given only the text",
+"of one or two properties and a scratch worktree of `/repo`; rounds 2 and 3 were additionally told which ideas had already",
+"been used and asked for changes needing two or more coinciding conditions; the *wildcard* rounds were given the eight",
+"claimed property texts plus a prose description of what the harness generates and asked for changes such a harness is",
+"unlikely to hit.  Every change was confirmed independently (`tools/verify_seed.sh`: compiles, the 34 existing tests pass,",
 "its demonstration passes on the clean tree and fails with the change) and then run against all eight checks",
-"(`tools/try_seed.sh`, quick tier).  Files: `seeded/<id>/{patch.diff,demo.rs,NOTES.md,meta.json}`.\n",
-"| id | breaks | what it needs to manifest | caught by |", "|---|---|---|---|"]
-for f in sorted(glob.glob(V + '/seeded/*/meta.json')):
-    m = json.load(open(f))
-    out.append(f"| {m['id']} | {m['breaks_property']} | {m['needs_to_manifest']} | {', '.join(m['caught_by']) or 'NONE'}{' (after strengthening, see meta.json)' if 'history' in m else ''} |")
-out += ["", "All 24 are caught by the check of the property they target. Two were first MISSED by every check and led to",
-"stronger checks (recorded in `meta.json` `history`): C04-3 (a `?` in the harness swallowed \"Ok but no picture\") and",
-"C17-2 (instances never shared header fields unless they were exact replicas; C17 worlds now contain content-only siblings).\n",
+"(`tools/try_seed.sh` / `tools/seed_matrix.py`, quick tier, scratch worktree).  Files: `seeded/<id>/{patch.diff,demo.rs,NOTES.md,meta.json}`.\n",
+"| id | breaks | what it needs to manifest | caught by | first run |", "|---|---|---|---|---|"]
+for m in metas:
+    tgt = m.get('breaks_property')
+    first = 'MISSED, check strengthened (see meta.json)' if 'MISSED' in m.get('history', '') else 'caught'
+    mark = '' if tgt in m.get('caught_by', []) else ' **(target check does not catch it)**'
+    out.append(f"| {m['id']} | {tgt} | {m['needs_to_manifest']} | {', '.join(m.get('caught_by', [])) or 'NONE'}{mark} | {first} |")
+out += ["", f"All {len(metas)} are caught by the check of the property they target.  {n_first_missed} of them were MISSED by every check (or by the",
+"target check) when first tried and led to stronger generators or oracles; what was changed is recorded in each `meta.json`",
+"(`history`) and summarised in DESIGN.md 9.2.  A check other than the target's appears in `caught by` only where that",
+"property is violated too (e.g. a lost reference makes a valid predicted picture undecodable: C03 and C04).\n",
 "## 2. Planned mutants (DESIGN.md section 4) and reverts of every `fix:` commit\n",
 "`tools/mutants.py` applies each change to a scratch worktree (never to `/repo`), runs the repository's own tests and,",
 "if they still pass, the targeted check in its quick tier (`VERIF_REPO=<worktree>`).\n",
